@@ -22,6 +22,11 @@ func init() {
 		Cases:         func(t string) int { return tierN(t, 32, 1500) },
 		MinNontrivial: func(t string) int { return tierN(t, 6, 300) },
 		Run:           runC11,
+		Extra: func(tier string, seed int64, agg *fw.Aggregate) {
+			if tier == "thorough" || os.Getenv("VERIF_RACE") != "" {
+				racePass("C11", seed, agg)
+			}
+		},
 	})
 }
 
